@@ -119,4 +119,18 @@ CHECKS["C12"] = {
     "engine": "tlc+vh",
 }
 
+CHECKS["C03"] = {
+    "category": "model_checking",
+    "text": "spec/Encoder.tla gives the bytes each Encoder method must append (RFC 8949 preferred heads) and a ghost nesting stack defining "
+            "balanced call sequences; spec/CborData.tla is the independent reference encoder/decoder of the data model. TLC checks that for every "
+            "call sequence up to a bound balanced <=> exactly one well-formed item and open => strict prefix, and that every single call is one "
+            "preferred item carrying the value given. Every explored call and sequence is replayed on Encoder<Vec<u8>> (twice, for determinism); "
+            "exhaustive 8/16-bit and boundary-dense/random 32/64-bit arguments, all 256 simple values and random call sequences are validated by TLC.",
+    "design_ref": "DESIGN.md section 6, C03 and section 7 (F2)",
+    "note": "Trusted: TLC, the transcription of RFC 8949 section 3 and 4.1. Known finding: simple(24..=31). The built-in Encode impls are decided by the "
+            "C01 check's events (bytes equal the reference encoding of the value).",
+    "technique": "TLA+ spec of the Encoder as an append-only log with ghost nesting (Encoder/CborData) + TLC + replay + trace validation",
+    "engine": "tlc+vh",
+}
+
 NOT_YET = "check not built yet in this round (planned in DESIGN.md section 10); not claimed until it exists"
